@@ -1197,6 +1197,134 @@ func pairedNodeLists(w *World, fn *ssa.Function, a, b ssa.Value) bool {
 	return sites > 0
 }
 
+// advancingCall: c calls a helper of the same package with an int argument; some int result of
+// the helper is greater than that parameter on every return, and that result flows (through
+// merges) into a variable carried round the loop with header hdr.
+func advancingCall(c *ssa.Call, hdr *ssa.BasicBlock, nonEmpty func(ssa.Value, *ssa.BasicBlock) bool) bool {
+	h := c.Call.StaticCallee()
+	if h == nil || len(h.Blocks) == 0 || c.Call.IsInvoke() || h.Pkg != c.Parent().Pkg || c.Referrers() == nil {
+		return false
+	}
+	for ai, a := range c.Call.Args {
+		if ai >= len(h.Params) || !isInt(a.Type()) {
+			continue
+		}
+		for _, ref := range *c.Referrers() {
+			ex, ok := ref.(*ssa.Extract)
+			if !ok || !isInt(ex.Type()) {
+				continue
+			}
+			// into the loop's variable
+			seen := map[ssa.Value]bool{}
+			var reaches func(v ssa.Value, d int) bool
+			reaches = func(v ssa.Value, d int) bool {
+				if d > 6 || seen[v] || v.Referrers() == nil {
+					return false
+				}
+				seen[v] = true
+				for _, r := range *v.Referrers() {
+					if ph, ok := r.(*ssa.Phi); ok {
+						if ph.Block() == hdr || reaches(ph, d+1) {
+							return true
+						}
+					}
+				}
+				return false
+			}
+			if !reaches(ex, 0) {
+				continue
+			}
+			if helperResultGreater(h, ai, ex.Index, nonEmpty) {
+				return true
+			}
+		}
+	}
+	return false
+}
+
+// helperResultGreater: on every return of h, result ri is greater than parameter pi.
+func helperResultGreater(h *ssa.Function, pi, ri int, nonEmpty func(ssa.Value, *ssa.BasicBlock) bool) bool {
+	param := h.Params[pi]
+	assumeGE := map[ssa.Value]bool{}
+	assumeGT := map[ssa.Value]bool{}
+	var ge, gt func(v ssa.Value, d int) bool
+	nonNeg := func(v ssa.Value) bool {
+		if k, ok := v.(*ssa.Const); ok && k.Value != nil && k.Value.Kind() == constant.Int {
+			return constant.Sign(k.Value) >= 0
+		}
+		return lenCallArg(v) != nil
+	}
+	pos := func(v ssa.Value, b *ssa.BasicBlock) bool {
+		if k, ok := v.(*ssa.Const); ok && k.Value != nil && k.Value.Kind() == constant.Int {
+			return constant.Sign(k.Value) > 0
+		}
+		if a := lenCallArg(v); a != nil && isString(a.Type()) {
+			return nonEmpty(a, b)
+		}
+		return false
+	}
+	gt = func(v ssa.Value, d int) bool {
+		if d > 12 {
+			return false
+		}
+		if assumeGT[v] {
+			return true
+		}
+		switch x := v.(type) {
+		case *ssa.BinOp:
+			if x.Op == token.ADD {
+				return (ge(x.X, d+1) && pos(x.Y, x.Block())) || (gt(x.X, d+1) && nonNeg(x.Y)) || (ge(x.Y, d+1) && pos(x.X, x.Block()))
+			}
+		case *ssa.Phi:
+			assumeGT[x] = true
+			for _, e := range x.Edges {
+				if !gt(e, d+1) {
+					delete(assumeGT, x)
+					return false
+				}
+			}
+			return true
+		}
+		return false
+	}
+	ge = func(v ssa.Value, d int) bool {
+		if d > 12 {
+			return false
+		}
+		if v == ssa.Value(param) || assumeGE[v] {
+			return true
+		}
+		switch x := v.(type) {
+		case *ssa.BinOp:
+			if x.Op == token.ADD && ((ge(x.X, d+1) && nonNeg(x.Y)) || (ge(x.Y, d+1) && nonNeg(x.X))) {
+				return true
+			}
+		case *ssa.Phi:
+			assumeGE[x] = true
+			for _, e := range x.Edges {
+				if !ge(e, d+1) {
+					delete(assumeGE, x)
+					return gt(v, d+1)
+				}
+			}
+			return true
+		}
+		return gt(v, d+1)
+	}
+	n := 0
+	for _, b := range h.Blocks {
+		ret, ok := b.Instrs[len(b.Instrs)-1].(*ssa.Return)
+		if !ok || ri >= len(ret.Results) {
+			continue
+		}
+		n++
+		if !gt(ret.Results[ri], 0) {
+			return false
+		}
+	}
+	return n > 0
+}
+
 // resultPiece: s is result idx of a call (fld = -1), or field fld of a struct result (read
 // directly or through a local the result was stored in).
 func resultPiece(s ssa.Value) (*ssa.Call, int, int, bool) {
@@ -1870,6 +1998,8 @@ type posBound struct {
 	base    ssa.Value
 	assumed map[ssa.Value]bool
 	ltBusy  map[*ssa.Phi]bool
+	ltGiven map[ssa.Value]bool // positions known to lie below the length on entry (a helper's parameter, shown at the call)
+	depth   int
 }
 
 // feasibleEdges: the edges of ph that can have been taken when control is in blk, judged by
@@ -1918,6 +2048,9 @@ func feasibleEdges(ph *ssa.Phi, blk *ssa.BasicBlock) ([]bool, bool) {
 func (p *posBound) isLen(v ssa.Value) bool { return sameLen(v, p.base) }
 
 func (p *posBound) ltLen(q ssa.Value, blk *ssa.BasicBlock) bool {
+	if p.ltGiven[q] {
+		return true
+	}
 	// a merged position under a test of a flag merged at the same place: only the edges on
 	// which the flag has the tested value count (if !appended { i++ })
 	if ph, ok := q.(*ssa.Phi); ok && !p.ltBusy[ph] {
@@ -2019,6 +2152,46 @@ func (p *posBound) leLen0(v ssa.Value, blk *ssa.BasicBlock, depth int) bool {
 	}
 	if p.ltLen(v, blk) {
 		return true
+	}
+	// a position handed back by a scanning helper that was handed the text and a position
+	// below its length: every return of the helper hands back a position within the text
+	if call, idx, fld, ok := resultPiece(v); ok && fld < 0 && p.depth < 2 {
+		if h := call.Call.StaticCallee(); h != nil && len(h.Blocks) > 0 && h.Pkg == p.fn.Pkg && !call.Call.IsInvoke() {
+			bi := -1
+			for i, a := range call.Call.Args {
+				if (a == p.base || rootOf(a, 0) == rootOf(p.base, 0)) && i < len(h.Params) && isString(h.Params[i].Type()) {
+					bi = i
+				}
+			}
+			if bi >= 0 {
+				hp := &posBound{ce: p.ce, fn: h, base: h.Params[bi], assumed: map[ssa.Value]bool{}, ltGiven: map[ssa.Value]bool{}, depth: p.depth + 1}
+				for i, a := range call.Call.Args {
+					if i >= len(h.Params) || !isInt(h.Params[i].Type()) {
+						continue
+					}
+					if p.ltLen(a, call.Block()) {
+						hp.ltGiven[h.Params[i]] = true
+						hp.assumed[h.Params[i]] = true
+					} else if p.leLen(a, call.Block(), depth+1) {
+						hp.assumed[h.Params[i]] = true
+					}
+				}
+				all, n := true, 0
+				for _, hb := range h.Blocks {
+					ret, isRet := hb.Instrs[len(hb.Instrs)-1].(*ssa.Return)
+					if !isRet || idx >= len(ret.Results) {
+						continue
+					}
+					n++
+					if !hp.leLen(ret.Results[idx], hb, 0) {
+						all = false
+					}
+				}
+				if all && n > 0 {
+					return true
+				}
+			}
+		}
 	}
 	switch x := v.(type) {
 	case *ssa.BinOp:
@@ -3357,6 +3530,11 @@ func LexProgressRule(w *World, r *Result, rule string) {
 					if positive(ins) {
 						prog = true
 					}
+					// a scanning helper that is handed the position and hands back a later one, which
+					// becomes the position of the loop
+					if c, ok := ins.(*ssa.Call); ok && advancingCall(c, hdr, func(v ssa.Value, b *ssa.BasicBlock) bool { return nonEmpty(v, b, 0) }) {
+						prog = true
+					}
 				}
 				for _, sc := range blk.Succs {
 					if prog || !body[sc] {
@@ -3845,7 +4023,16 @@ func (p *posBound) pieceOfRest(m, q ssa.Value, blk *ssa.BasicBlock) bool {
 			}
 			return restOf(c.Call.Args[1])
 		case *ssa.Phi:
-			return false
+			// a variable that is empty or holds such a piece (escape := ""; if !raw { escape = re.FindString(rest) })
+			for _, e := range x.Edges {
+				if k, ok := e.(*ssa.Const); ok && k.Value != nil && k.Value.Kind() == constant.String && constant.StringVal(k.Value) == "" {
+					continue
+				}
+				if _, isPhi := e.(*ssa.Phi); isPhi || !p.pieceOfRest(e, q, blk) {
+					return false
+				}
+			}
+			return true
 		default:
 			// a text the rest starts with (strings.HasPrefix(base[q:], m) on the way here)
 			for d := blk; d != nil; d = d.Idom() {
